@@ -150,7 +150,8 @@ pub fn run(sc: &Value) -> Vec<String> {
     let texts: Vec<(String, String)> = ga(sc, "texts").iter().map(|t| (t[0].as_str().unwrap().to_string(), t[1].as_str().unwrap().to_string())).collect();
     let files: Vec<Value> = ga(sc, "files").to_vec();
     let datas: Vec<Vec<u8>> = files.iter().map(|f| data_of(f, "\r\n--")).collect();
-    let mut world = World::new(vec![ConnScript::new(b"HTTP/1.1 200 OK\r\nContent-Length: 0\r\n\r\n".to_vec())], vec![]);
+    let reply = || ConnScript::new(b"HTTP/1.1 200 OK\r\nContent-Length: 0\r\n\r\n".to_vec());
+    let mut world = World::new(if gb(sc, "twice") { vec![reply(), reply()] } else { vec![reply()] }, vec![]);
     world.trace_conn = None;
     let world: Shared = Arc::new(Mutex::new(world));
     install_dialer(&world);
@@ -189,12 +190,19 @@ pub fn run(sc: &Value) -> Vec<String> {
         if gs(sc, "ctmode") == "after" {
             rb = rb.header(attohttpc::header::CONTENT_TYPE, stale);
         }
+        if gb(sc, "twice") {
+            // the same prepared request sent twice: the second transmission is the one that is decoded below
+            let mut p = rb.try_prepare().map_err(|e| err_kind(&e))?;
+            p.send().map_err(|e| err_kind(&e))?;
+            let rp = p.send().map_err(|e| err_kind(&e))?;
+            return Ok(rp.status().as_u16());
+        }
         let rp = rb.send().map_err(|e| err_kind(&e))?;
         Ok(rp.status().as_u16())
     }));
     uninstall_dialer();
     let w = world.lock().unwrap();
-    let written = &w.conns[0].written;
+    let written = &w.conns[if gb(sc, "twice") && w.conns.len() > 1 { 1 } else { 0 }].written;
     let added = texts.len() + files.len();
     let mut ev = json!({"ev":"mpart","id":gs(sc,"id"),"added":added,"res":"err","kind":"","decoded":0,"matched":0,"closed":false,"boundaryInData":false,
         "framingOk":false,"decodeError":"-","bodyLen":0,"nchunks":0,"preamble":0,"epilogue":0});
@@ -257,7 +265,8 @@ pub fn generate(seed: u64, tier: &str) -> Vec<Value> {
     let mimes = ["text/plain", "application/octet-stream", "image/png", "text/html; charset=utf-8", "application/vnd.api+json"];
     let classes = ["bytes", "crlf", "lookalike", "bytes", "hint"];
     let mut push = |out: &mut Vec<Value>, texts: Vec<Value>, files: Vec<Value>| {
-        out.push(json!({"id":format!("mp-{}", id),"texts":texts,"files":files,"ctmode":(["none", "session", "before", "after", "none"][id % 5]),"ctval":(id / 5)}));
+        out.push(json!({"id":format!("mp-{}", id),"texts":texts,"files":files,"ctmode":(["none", "session", "before", "after", "none"][id % 5]),"ctval":(id / 5),
+            "twice": id % 4 == 1}));
         id += 1;
     };
     // the empty form, and all small shapes
